@@ -172,7 +172,7 @@ def api_correspondence(ctx, tg, tga):
         itext.append("fp %s %d %d %s %s %d %d\n" % (cid, n, dt, fhex(float(pmin)), fhex(float(pmax)), fpt, 1 if (ok and allok) else 0))
     kick_defined = {}
     for (cid, d, n, nb, it, offs) in kicks:
-        kick_defined[cid] = True        # since fix 49f6ba4 every offset is handled without a conversion outside its domain
+        kick_defined[cid] = True        # since fix fbbfcf6 every offset is handled without a conversion outside its domain
         itext.append("kick %s %s %d %d %d %s\n" % (cid, d, n, nb, it, " ".join(fhex(o) for o in offs)))
     rc, out, err = run_driver(tg["impl_bounds"], "".join(itext), env=vp_build.xdg_env())
     if rc != 0:
